@@ -21,6 +21,7 @@
 #include <errno.h>
 #include <stdint.h>
 #include <sys/syscall.h>
+#include <sys/resource.h>
 #include "clockbound.h"
 
 static int vclock_on = 0;
@@ -210,6 +211,11 @@ int main(void) {
                    CLOCKBOUND_ERR_SEGMENT_MALFORMED, CLOCKBOUND_ERR_CAUSALITY_BREACH);
             fflush(stdout);
             continue;
+        }
+        if (strcmp(tag, "seg") == 0) {
+            /* a process that opens segment after segment must not run out of descriptors (see the Rust harness) */
+            static int low = 0;
+            if (!low) { struct rlimit rl; low = 1; if (getrlimit(RLIMIT_NOFILE, &rl) == 0) { rl.rlim_cur = rl.rlim_max < 96 ? rl.rlim_max : 96; setrlimit(RLIMIT_NOFILE, &rl); } }
         }
         long long what = 0;   /* sgo: what the daemon does to the header between the open and the call (1 generation odd, 2 version 0, 3 generation 0) */
         if (strcmp(tag, "lng") == 0) {
